@@ -790,11 +790,62 @@ def run_pipeline_holes(case):
                  "mns=%s" % (case["max_n_states"] is not None), "lag=%d" % min(lag, 3)])
 
 
+# --------------------------------------------------------------------------
+# clause 1c: one estimator object fitted twice (refit) equals the pipeline on the data of the LAST fit
+
+@st.composite
+def refit_case(draw):
+    a = draw(assign_case(max_lag=1, methods=("name:normalize", "fn:normalize", "name:transpose"), with_mns=False))
+    b = draw(assign_case(max_lag=1, methods=("name:normalize",), with_mns=False))
+    a["second_trajs"] = b["trajs"]
+    a["second_how"] = b["how"]
+    a["order"] = draw(st.sampled_from(["ab", "ba"]))
+    a["max_n_states"] = None
+    # with trim off every state must have outgoing counts in BOTH data sets; each generator guarantees that only when
+    # it was drawn with trim off, so the refit runs untrimmed only if both sets were generated that way
+    a["trim"] = bool(a["trim"] or b["trim"])
+    return a
+
+
+def run_refit(case):
+    lag = case["lag"]
+    sets = [(case["trajs"], case["how"]), (case["second_trajs"], case["second_how"])]
+    if case["order"] == "ba":
+        sets.reverse()
+    fn = method_fn(case["method"])
+    m = MSM(lag_time=lag, method=METHODS[case["method"]], trim=case["trim"], sliding_window=case["sliding"])
+    with np.errstate(all="ignore"):
+        for trajs, how in sets:
+            a = make_assigns(trajs, how)
+            m.fit(a)
+        C = assigns_to_counts(a, lag, sliding_window=case["sliding"])
+        if case["trim"]:
+            mp, C = trim_disconnected(C)
+            want_map = mapping_dict(mp)
+        else:
+            want_map = {i: i for i in range(C.shape[0])}
+        Cp, Tp, pip = fn(C)
+    Cm, Tm, pim = dense(m.tcounts_), dense(m.tprobs_), np.asarray(m.eq_probs_)
+    require(Cm.shape == dense(Cp).shape and np.array_equal(Cm, dense(Cp)),
+            "a re-fitted estimator does not report the counts of the function pipeline on the data of its last fit",
+            got_shape=Cm.shape, want_shape=dense(Cp).shape, got=Cm.tolist(), want=dense(Cp).tolist())
+    require(mapping_dict(m.mapping_) == want_map, "a re-fitted estimator reports a different state mapping",
+            got=mapping_dict(m.mapping_), want=want_map)
+    same = lambda x, y: np.shape(x) == np.shape(y) and bool(np.allclose(x, y, rtol=1e-12, atol=1e-12, equal_nan=True))
+    require(same(Tm, dense(Tp)) and same(pim, np.asarray(pip)), "a re-fitted estimator differs from the function pipeline")
+    n1 = max(max(t) for t in sets[0][0]) + 1
+    n2 = max(max(t) for t in sets[1][0]) + 1
+    return Info(n1 != n2, ["refit_states=%s" % ("fewer" if n2 < n1 else "more" if n2 > n1 else "same"),
+                           "trim=%s" % case["trim"], "sliding=%s" % case["sliding"]])
+
+
 CLAUSES = [
     Clause("pipeline", assign_case(), run_pipeline, quick=640, thorough=8000, exhaustive=exhaustive_configs,
            doc="MSM(**cfg).fit(a) == builder(trim?(assigns_to_counts(a, lag, sliding, max_n_states)))"),
     Clause("pipeline_missing_frames", holes_case(), run_pipeline_holes, quick=320, thorough=4000,
            doc="MSM.fit == function pipeline also when -1 entries precede assigned frames"),
+    Clause("refit", refit_case(), run_refit, quick=300, thorough=4000,
+           doc="fitting the same estimator object again equals the pipeline on the new data"),
     Clause("roundtrip", assign_case(), run_roundtrip, quick=320, thorough=4000,
            doc="MSM.load(m.save(dir)) equals m (config, mapping, counts, T, populations, ==)"),
     Clause("pipeline_large", assign_case(max_core=12, max_lag=8), run_pipeline, quick=0, thorough=2400,
